@@ -32,7 +32,8 @@ def word (m : ByteArray) (off : Nat) : UInt32 :=
   (m.get! off).toUInt32 ||| ((m.get! (off+1)).toUInt32 <<< 8) |||
   ((m.get! (off+2)).toUInt32 <<< 16) ||| ((m.get! (off+3)).toUInt32 <<< 24)
 
-def digest (msg : ByteArray) : ByteArray := Id.run do
+/-- the four state words after the last block -/
+def digestState (msg : ByteArray) : UInt32 × UInt32 × UInt32 × UInt32 := Id.run do
   let m := pad msg
   let mut a0 : UInt32 := 0x67452301
   let mut b0 : UInt32 := 0xefcdab89
@@ -56,11 +57,18 @@ def digest (msg : ByteArray) : ByteArray := Id.run do
       a := d; d := c; c := b
       b := b + rotl f sTab[i]!
     a0 := a0 + a; b0 := b0 + b; c0 := c0 + c; d0 := d0 + d
-  let mut out := ByteArray.empty
-  for w in [a0,b0,c0,d0] do
-    for i in [0:4] do
-      out := out.push ((w >>> (UInt32.ofNat (8*i))).toUInt8)
-  return out
+  return (a0, b0, c0, d0)
+
+/-- the four bytes of a word, least significant first -/
+def le4 (w : UInt32) : List UInt8 := [w.toUInt8, (w >>> 8).toUInt8, (w >>> 16).toUInt8, (w >>> 24).toUInt8]
+
+/-- MD5: the state words written out little-endian (16 bytes) -/
+def digest (msg : ByteArray) : ByteArray :=
+  let s := digestState msg
+  ⟨(le4 s.1 ++ le4 s.2.1 ++ le4 s.2.2.1 ++ le4 s.2.2.2).toArray⟩
+
+/-- an MD5 digest has 16 bytes -/
+theorem digest_size (msg : ByteArray) : (digest msg).size = 16 := rfl
 
 def hexDigit (n : UInt8) : Char := if n < 10 then Char.ofNat (48 + n.toNat) else Char.ofNat (87 + n.toNat)
 def hex (b : ByteArray) : String := Id.run do
